@@ -64,6 +64,19 @@ func (p *Path) intrinsic(caller *frame, fn *ssa.Function, name string, args []Va
 		}
 		*st = smt.ConstBV(32, 1)
 		return smt.True, true
+	case "strconv.FormatFloat":
+		if x, ok := args[0].(XF); ok {
+			f, _ := asInt(args[1])
+			prec, _ := asInt(args[2])
+			bits, _ := asInt(args[3])
+			if byte(f) != 'f' || prec < 0 || prec > 2 || (bits != 32 && bits != 64) {
+				p.abortf("Int back end: strconv.FormatFloat(%c, %d, %d) not lowered", byte(f), prec, bits)
+			}
+			if bits == 32 {
+				x = p.xfToFloat32(x)
+			}
+			return Str{tok: &FmtTok{Format: fmt.Sprintf("%%.%df", prec), X: &x}}, true
+		}
 	case "regexp.Compile":
 		pat := p.strArg(args[0], "regexp pattern")
 		rx, err := compileRx(pat)
